@@ -275,6 +275,8 @@ def oracle(case):
 		imf, r850, asc, year = forms(b)
 		nops = 1 + 2 * (3 if 1970 <= year <= 2068 else 2)
 		exp += (' %d%d%d%d%d%d' % (a < b, a > b, a == b, a != b, a <= b, a >= b)) * nops
+		ts_ = [min(MAXT, max(0, a + d)) for d in (-1, 0, 1, 0, -1, 1, 0)]
+		exp += ' ' + ''.join('%d%d%d' % (a < t_, a == t_, a > t_) for t_ in ts_)
 		import datetime as _dt
 		da = _dt.datetime(1970, 1, 1) + _dt.timedelta(seconds=a)
 		exp += ' %s %d 1 %s %d' % (da.isoformat(), a, '-'.join(str(v) for v in (da.year, da.month, da.day, da.hour, da.minute, da.second)), a)
